@@ -244,6 +244,7 @@ def main():
     if os.path.isdir(sub):
         props_files += sorted(os.path.join(sub, f) for f in os.listdir(sub) if f.endswith(".lean"))
     theorems = [t for pf in props_files for t in list_theorems(pf)]
+    theorems_of = {os.path.relpath(pf, LEAN)[:-5].replace(os.sep, "."): list_theorems(pf) for pf in props_files}
     props_mods = [os.path.relpath(pf, LEAN)[:-5].replace(os.sep, ".") for pf in props_files] or [props_mod]
     # A translator part that could not parse the sources is a broken tie for THIS property only if the property's
     # theorems import one of the tables that part regenerates (they would be re-checked against the last good table,
@@ -295,18 +296,32 @@ def main():
             failing.add(f"lake build {props_mod}")
         broken_theorems.extend(sorted(failing))
         say(f"lake build {props_mod} FAILED; broken obligations: {sorted(failing)}")
+        # which of the property's theorem files still build? Their theorems are audited as usual; the theorems of a
+        # file that does not build (or imports one that does not) are broken obligations, the others are not.
+        ok_mods = []
+        with Lock("lake.lock"):
+            for pm in props_mods:
+                rc1, _o = run(["lake", "build", pm], cwd=LEAN)
+                if rc1 == 0:
+                    ok_mods.append(pm)
+        unbuilt = [pm for pm in props_mods if pm not in ok_mods]
+        for pm in unbuilt:
+            names = [n for (n, _) in theorems_of.get(pm, [])]
+            broken_theorems.append(f"{pm} does not build: {len(names)} theorem(s) not checked ({', '.join(x.split('.')[-1] for x in names[:6])}{', ...' if len(names) > 6 else ''})")
 
     # ---- 3 axiom audit + forbidden tokens ----------------------------------------------------
     axioms = {}
     discharged = 0
     forbidden_hits = []
-    if lean_ok and theorems:
+    audit_mods = props_mods if lean_ok else ok_mods
+    audit_theorems = theorems if lean_ok else [t for pm in ok_mods for t in theorems_of.get(pm, [])]
+    if audit_mods and audit_theorems:
         os.makedirs(os.path.join(LEAN, "EG", "Audit"), exist_ok=True)
         audit = os.path.join(work, f"Audit{pid}.lean")
         with open(audit, "w") as f:
-            for pm in props_mods:
+            for pm in audit_mods:
                 f.write(f"import {pm}\n")
-            for (n, _) in theorems:
+            for (n, _) in audit_theorems:
                 f.write(f"#print axioms {n}\n")
         with Lock("lake.lock"):
             rc, out = run(["lake", "env", "lean", audit], cwd=LEAN)
@@ -317,14 +332,14 @@ def main():
             name = m.group(1)
             axs = [a.strip() for a in (m.group(3) or "").replace("\n", " ").split(",") if a.strip()]
             axioms[name] = axs
-        for (n, _) in theorems:
+        for (n, _) in audit_theorems:
             if n not in axioms:
                 broken_theorems.append(f"{n} (no axiom report)")
             elif set(axioms[n]) - ALLOWED_AXIOMS:
                 broken_theorems.append(f"{n} (axioms {sorted(set(axioms[n]) - ALLOWED_AXIOMS)})")
             else:
                 discharged += 1
-        for m in sorted({x for pm in props_mods for x in lean_imports_closure(pm)}):
+        for m in sorted({x for pm in audit_mods for x in lean_imports_closure(pm)}):
             p = os.path.join(LEAN, m.replace(".", "/") + ".lean")
             for ln, line in enumerate(strip_comments(open(p).read(), blank_strings=True).split("\n"), 1):
                 if FORBIDDEN.search(line):
@@ -333,7 +348,7 @@ def main():
             broken_theorems.append("forbidden tokens: " + "; ".join(forbidden_hits[:5]))
         if tier == "thorough" and not replay:
             with Lock("lake.lock"):
-                rc, out = run(["lake", "env", "leanchecker"] + props_mods, cwd=LEAN)
+                rc, out = run(["lake", "env", "leanchecker"] + audit_mods, cwd=LEAN)
             log.write(out)
             if rc != 0:
                 broken_theorems.append(f"leanchecker {props_mod}: {out.strip()[-200:]}")
